@@ -217,7 +217,10 @@ def run(tier, seed, result):
     jobs = []
     for ei in range(len(EMITS)):
         for ci in range(len(CHANGERS)):
-            jobs.append((ei, ci, False, 0 if tier == 'quick' else 1))
+            # the double-completion deviation multiplies the schedules by
+            # ~8: thorough tier, list-of-rooms emits only
+            jobs.append((ei, ci, False,
+                         1 if tier != 'quick' and ei in (0, 4) else 0))
     jobs.append((0, 0, True, 0 if tier == 'quick' else 1))
     total = 0
     outcomes = 0
